@@ -380,6 +380,8 @@ class Interp:
 
     def join_state(self, k, a, b):
         """join of analysis-state pseudo variables ('$...'); default: must-information (equal or dropped)"""
+        if k == "$globals":
+            return frozenset(set(a or ()) | set(b or ()))
         if a is None or b is None:
             return None
         return a if a == b else None
@@ -410,6 +412,10 @@ class Interp:
     def lookup_name(self, name, n, env, ctx):
         if name in env:
             return env[name]
+        if name in env.get("$globals", ()) or (name in getattr(ctx.mod, "rebound_globals", ()) and not (ctx.func is not None and name in ctx.func.locals
+                                                                                                     and name not in env.get("$globals", ()))):
+            if name in ctx.mod.globals or name in env.get("$globals", ()):
+                return self.h_global_load(ctx.mod, name, n, env, ctx)
         e = env
         while "$outer" in e:        # closure chain
             e = e["$outer"]
@@ -867,6 +873,8 @@ class Interp:
 
     def assign(self, t, v, env, ctx, stmt):
         if isinstance(t, ast.Name):
+            if t.id in env.get("$globals", ()):
+                v = self.h_global_store(ctx.mod, t.id, v, stmt, env, ctx)
             env[t.id] = self.h_bind(t.id, v, stmt, env, ctx)
             if "$mu" in env and t.id in env["$mu"]:
                 env["$mu"] = env["$mu"] - {t.id}
@@ -947,14 +955,30 @@ class Interp:
         for t in s.targets:
             if isinstance(t, ast.Name):
                 env.pop(t.id, None)
+            elif isinstance(t, ast.Subscript):
+                # del x[i]  is  x.__delitem__(i): a mutating method call on x
+                fake = ast.Call(func=ast.Attribute(value=t.value, attr="__delitem__", ctx=ast.Load()), args=[t.slice], keywords=[])
+                ast.copy_location(fake, s)
+                ast.copy_location(fake.func, s)
+                recv = self.ev(t.value, env, ctx)
+                idx = self.ev_slice(t.slice, env, ctx)
+                self.h_call_method(recv, "__delitem__", fake, [idx], {}, env, ctx)
             else:
-                raise Inconclusive("del of a non-name not modelled", s)
+                raise Inconclusive("del of an attribute not modelled", s)
         return env
 
     def st_Global(self, s, env, ctx):
-        raise Inconclusive("global statement not modelled", s)
+        env["$globals"] = frozenset(set(env.get("$globals", ())) | set(s.names))
+        return env
 
-    st_Nonlocal = st_Global
+    def st_Nonlocal(self, s, env, ctx):
+        raise Inconclusive("nonlocal statement not modelled", s)
+
+    def h_global_store(self, module, name, v, n, env, ctx):
+        raise Inconclusive("assignment to the module-level variable %s is not modelled in this domain" % name, n)
+
+    def h_global_load(self, module, name, n, env, ctx):
+        raise Inconclusive("read of the mutable module-level variable %s is not modelled in this domain" % name, n)
 
     def st_If(self, s, env, ctx):
         tv = self.ev(s.test, env, ctx)
